@@ -142,6 +142,9 @@ def check_diff(res):
                 return {"clause": "row i corresponds to the i-th requested age (row never written)", "row": i, "attr": key}
             scale = max(float(np.nanmax(np.abs(b))) if len(b) else 0.0, 1e-300)
             tol = rel * np.maximum(np.abs(b), scale * 1e-4) + (absN if key[0] == "N" else absN * 50 if key[0] == "M" and key != "Ms" else 0)
+            if not tight and key[:2] in ("Nr", "Mr") and len(b):
+                # at the default tolerance objects are booked into neighbouring remnant bins (see above): per bin relative to the class total
+                tol = rel * np.maximum(np.abs(b), float(np.nansum(np.abs(b)))) + (absN if key[0] == "N" else absN * 50)
             if key.startswith("mr") or key == "alpha":
                 tol = rel * np.maximum(np.abs(b), 1e-3) + (1e-5 if tight else 5e-2)
             nan_mismatch = np.isnan(a) != np.isnan(b)
